@@ -16,4 +16,9 @@ CHECKS['C09'] = {'text': 'One inductive step over the cache: the real Interpolat
    'Set_Prefactor/Multiply write only the prefactor, copy-assignment copies every field.',
    'note': 'Bounds: N<=12 (quick) / N<=32 (thorough) for Locate, N<=5 / N<=7 for the queries, 3x3 / 4x4 grids. Exact real arithmetic (comparisons are exact in IEEE too; the tolerance product 1e-2*h is the only rounded operation). Trusted: clang lowering, interpreter (validated vs native on all cache states of two tables each run), z3.',
    'technique': EA}
+CHECKS['C08'] = {'text': 'Bounded symbolic proof on the real Interpolation::Integrate, Local_Minimum/Maximum, Global_Minimum/Maximum and Interpolation_2D::Global_*: on an object with free symbolic tables, coefficients and prefactor, '
+   'every returning path of Integrate equals the exact integral of the located segment cubics (checker-built antiderivative), its formal derivative in the upper limit is the interpolant, it vanishes for equal limits and is antisymmetric; '
+   'the extremum functions return exactly the min/max over the curve values at the limits and prefactor*knot values inside, for a prefactor of either sign (set by Set_Prefactor and Multiply).',
+   'note': 'N in {3,4} quick, <=6 thorough; 3x3 (quick) to 4x4 grids; exact real arithmetic. That the min/max over limits and interior knots is the extremum of the curve rests on C01 (monotone between knots). Two genuine defects found by this check were repaired in /repo (fix: commits ce707d1, 1135743).',
+   'technique': EA}
 NOT_APPLICABLE = {}
